@@ -383,7 +383,10 @@ def judge (_id : String) (lines : Array String) : Verdict := Id.run do
           | some a, some b, some c =>
             -- the model's UDF node is ONE stage; the real one is three goroutines (reader, process, forwarder)
             -- holding a message each, and Abort drops the two that are not in the forwarder
-            let slack := if isFork then 0 else 2 * ((kinds.take o.idx).filter (· == Kind.udf)).length
+            -- the failing UDF counts EVERY message, the barrier / delete messages of a barrier node above it included
+            -- (not in the model): it may die up to `ctlSlack` points earlier than `fail K` says
+            let failCtl := if hasFail && kinds.any isBarrier then ctlSlack else 0
+            let slack := (if isFork then 0 else 2 * ((kinds.take o.idx).filter (· == Kind.udf)).length) + failCtl
             let lo := match pB.deliv.lookup o.idx with | some d => min d (min a (min b c)) | none => min a (min b c)
             if !(lo ≤ o.total + slack && o.total ≤ max a (max b c)) then return false
             if o.total != o.distinct then return false
